@@ -13,7 +13,8 @@
       (`check->addr == fstack->addr`): an invocation of `dup@A` running inside `dup@B` is not
       "recursive", both durations are added to the one node `dup` (finding F-C08-SAMENAME:
       Total of a row can exceed the run time of the program).  `Keying.byName = true` is the
-      repaired test (an open caller with the same *name* makes the invocation recursive).
+      repaired test (proposed_fixes/C08-SAMENAME.diff, `is_same_name`: an open caller whose
+      symbol is named like the node makes the invocation recursive).
 
    2. A generic form of the whole-data-set loop (`stepG`/`runG`/`finishG`) so that the function
       report, the task report and the keyed report are instances of one machine, and the list
@@ -63,17 +64,27 @@ def runTG (stp : Task → Rec → Task × List Upd) (t : Task) : List Rec → Ta
 structure Keying where
   /-- address ↦ id of the name string `symbol_getname` returns for it (ids ordered like `strcmp`) -/
   name : Nat → Nat
-  /-- the repair of F-C08-SAMENAME: the recursion test compares names -/
+  /-- the address lies inside a symbol (otherwise its name is the text `<hex address>`) -/
+  sym : Nat → Bool
+  /-- the repair of F-C08-SAMENAME: an open caller named like the node makes the call recursive -/
   byName : Bool
 
-/-- the recursion test of `report_update_node` for the frame at slot `i` with address `addr` -/
-def isRecK (ky : Keying) (stk : List Fs) (i : Nat) (addr : Nat) : Bool :=
-  (stk.take i).any (fun c => c.addr == addr || (ky.byName && ky.name c.addr == ky.name addr))
+/-- the recursion test of `report_update_node` on the addresses `ctx` of the open callers, for the
+    frame at address `addr` whose node is the one named like `keyAddr`.  As coded: the same address.
+    Repaired (`is_same_name`): or the node is named after a symbol (`task->func`) and the caller's
+    symbol has that name. -/
+def recK (ky : Keying) (ctx : List Nat) (addr keyAddr : Nat) : Bool :=
+  ctx.any (fun c => c == addr || (ky.byName && ky.sym keyAddr && ky.sym c && ky.name c == ky.name keyAddr))
+
+/-- the same test on the slots below slot `i` -/
+def isRecK (ky : Keying) (stk : List Fs) (i : Nat) (addr keyAddr : Nat) : Bool :=
+  (stk.take i).any (fun c => c.addr == addr ||
+    (ky.byName && ky.sym keyAddr && ky.sym c.addr && ky.name c.addr == ky.name keyAddr))
 
 /-- `find_insert_node` + `report_update_node`: the node is the one named like `keyAddr` -/
 def updOfK (ky : Keying) (stk : List Fs) (i : Nat) (fs : Fs) (keyAddr : Nat) : Upd :=
   { key := ky.name keyAddr, total := fs.total, self := sub64 fs.total fs.child,
-    recursive := isRecK ky stk i fs.addr }
+    recursive := isRecK ky stk i fs.addr keyAddr }
 
 def lostUpdsK (ky : Keying) (stk : List Fs) : Nat → Int → List Upd
   | 0, _ => []
@@ -200,5 +211,33 @@ def insByStr (k : Nat) : List Nat → List Nat
   | a :: r => if strcmpD (digits k) (digits a) < 0 then k :: a :: r else a :: insByStr k r
 
 def sortByStr (l : List Nat) : List Nat := l.foldl (fun acc k => insByStr k acc) []
+
+/-- the rows of the task report in the order of its name tree; task `i` has the tid `tids[i]`,
+    the row's key is the tid -/
+def taskRows (tids : List Nat) (ns : Nodes) : List Row :=
+  (sortByStr tids).filterMap (fun tid =>
+    let i := tids.idxOf tid
+    if (ns i).call > 0 then some (Row.ofNode tid 0 (ns i)) else none)
+
+/-- `report_setup_task` + `report_sort_tasks`; `none` = invalid sort key -/
+def sortTaskRows (tidFixed : Bool) (names : List String) (rows : List Row) : Option (List Row) :=
+  let cmps := names.map (taskCmpT tidFixed)
+  if cmps.any (·.isNone) then none else some (sortRows (cmpChain (cmps.filterMap id)) rows)
+
+/-! ### the keyed function report as a table -/
+
+def insAsc (k : Nat) : List Nat → List Nat
+  | [] => [k]
+  | a :: r => if k < a then k :: a :: r else if k = a then a :: r else a :: insAsc k r
+
+/-- the name ids of the addresses `addrs`, ascending and distinct (the name tree's order) -/
+def nameKeys (name : Nat → Nat) (addrs : List Nat) : List Nat :=
+  addrs.foldl (fun acc a => insAsc (name a) acc) []
+
+/-- the rows of the function report in name order; `addrs` = the addresses that occur in the data -/
+def keyedRows (ky : Keying) (symSize : Nat → Option Nat) (maxStack : Nat) (streams : List (List Rec))
+    (addrs : List Nat) : List Row :=
+  nameRows (reportNodesK ky maxStack streams)
+    (sizeOfKey ky.name symSize (reportLog maxStack streams)) (nameKeys ky.name addrs)
 
 end Uft.Report
